@@ -29,6 +29,8 @@ def run(tier: str, keep: bool = False) -> int:
     r.solo("srcdeep", "S", fam1, ["poll", "nak", "nakodd", "ack", "fin", "cancel", "tick", "alien"], 5 if q else 6, ["C10"],
            pre=[["put"], ["poll"], ["poll"]], limit=5000 if q else 150000)
     # the public reset() in the middle of a transaction (queued PDUs, armed timers), then a new transaction on the same handler
+    # PDUs carrying another transaction's sequence number while a transaction is running
+    r.solo("dststale", "D", fam2, ["stale", "fd", "eof", "poll", "ack"], 4 if q else 5, ["C10"], pre=[["md", "fd"]], limit=3000 if q else 150000)
     r.solo("dstreset", "D", fam2, ["reset", "md", "fd", "eof", "poll", "tick"], 5 if q else 6, ["C10"], pre=[["md"], ["fd", "eof"]],
            limit=3000 if q else 150000)
     r.solo("srcreset", "S", fam2, ["reset", "put", "poll", "cancel", "nak", "tick"], 5 if q else 6, ["C10"], pre=[["put"], ["poll"]],
